@@ -49,7 +49,7 @@ def main():
                 "property_id": pid,
                 "quick_cmd": "./check %s --tier quick" % pid,
                 "thorough_cmd": "./check %s --tier thorough" % pid,
-                "evidence_file": "evidence/%s.json" % pid,
+                "evidence_file": "/verif/evidence/%s.json" % pid,
                 "replay_cmd_template": "./check %s --replay {path}" % pid,
                 "engine": "lean",
                 "level_claimed": {"category": c.get("category", "proof"), "text": c["text"], "design_ref": c["design"]},
